@@ -61,8 +61,15 @@ pub const CR_DENOM: [u32; 4] = [5, 6, 7, 8];
 
 const IMPLS: [&str; 8] = ["baseband", "sx1261", "sx1262", "stm32wl-hp", "stm32wl-lp", "sx1276", "sx1272", "lr1110"];
 const PATHS: [&str; 5] = ["kind", "lora-rx", "lora-tx", "lorawan-rx", "lorawan-tx"];
-/// frequency classes: below 400 MHz (250/500 kHz refused), 433, 868, 915 MHz
-const FREQS: [u32; 4] = [169_000_000, 433_175_000, 868_100_000, 915_000_000];
+/// frequency classes: the low band and its edges (250/500 kHz are refused below 400 MHz: the last Hz below and the
+/// threshold itself), 433 / 470 MHz, the SX1276 LF/HF port edge (525 MHz), 779, 868, 915, 923 MHz and the upper end
+/// The carrier frequency is an argument of every driver's create_modulation_params: whatever a driver accepts is inside
+/// the quantifier, so the classes also hold the 2.4 GHz band of the LR1120/LR1121 (its lower edge, the last Hz below it,
+/// two channels inside, its upper end) and the extremes of the argument type.
+const FREQS: [u32; 20] = [
+    169_000_000, 433_175_000, 868_100_000, 915_000_000, 137_000_000, 399_999_999, 400_000_000, 470_300_000, 525_000_000, 779_500_000, 923_200_000, 1_020_000_000,
+    2_399_999_999, 2_400_000_000, 2_403_000_000, 2_479_000_000, 2_500_000_000, 1, 1_020_000_001, u32::MAX,
+];
 
 fn family(imp: &str) -> &'static str {
     match imp {
@@ -120,14 +127,41 @@ struct Case {
     freq: u32,
     /// prior content of the register that holds the LDRO bit (SX127x only)
     prior: u8,
-    /// board options: bit 0 rx_boost, bit 1 tx_boost (SX127x) / DC-DC (SX126x), bit 2 TCXO
+    /// board options: bit 0 rx_boost, bit 1 tx_boost (SX127x) / DC-DC (SX126x, LR1110), bit 2 TCXO; LR1110 also bit 3
+    /// high-power PA, bit 4 DIOs as RF switch
     board: u8,
+    /// which of the VARIANTS of the remaining request parameters (packet parameters, receive mode, power, payload) is used
+    variant: u8,
 }
+
+/// The remaining parameters of a request through LoRa / LorawanRadio. They do not enter the LDRO decision, but they share
+/// registers (SX1272 RegModemConfig1: BW, CR, header mode, CRC, LDRO; SX1276 RegModemConfig2/3) and command sequences with it.
+struct Variant {
+    preamble: u16,
+    implicit: bool,
+    crc: bool,
+    iq: bool,
+    rx_len: u8,
+    /// 0 Single(20), 1 Continuous, 2 Single(0), 3 Single(65535)
+    rx_mode: u8,
+    power: i32,
+    tx_len: usize,
+    /// adapter: Some(ms) = Single, None = Continuous
+    lw_ms: Option<u32>,
+    public_network: bool,
+}
+const VARIANTS: [Variant; 4] = [
+    Variant { preamble: 8, implicit: false, crc: true, iq: true, rx_len: 32, rx_mode: 0, power: 10, tx_len: 4, lw_ms: Some(50), public_network: false },
+    Variant { preamble: 0, implicit: true, crc: false, iq: false, rx_len: 0, rx_mode: 1, power: 22, tx_len: 1, lw_ms: None, public_network: true },
+    Variant { preamble: 65_535, implicit: false, crc: true, iq: false, rx_len: 255, rx_mode: 2, power: -9, tx_len: 255, lw_ms: Some(0), public_network: true },
+    Variant { preamble: 12, implicit: true, crc: false, iq: true, rx_len: 1, rx_mode: 3, power: 0, tx_len: 13, lw_ms: Some(1000), public_network: false },
+];
+const TX_PAYLOAD: [u8; 255] = [0x5A; 255];
 
 impl Case {
     fn json(&self) -> Value {
         json!({"kind":"ldro","impl":IMPLS[self.imp],"path":PATHS[self.path],"sf":SF_NUM[self.sf],"bw_hz":BW_ROUNDED_HZ[self.bw],
-               "cr_denom":CR_DENOM[self.cr],"freq_hz":self.freq,"prior_reg":self.prior,"board_options":self.board})
+               "cr_denom":CR_DENOM[self.cr],"freq_hz":self.freq,"prior_reg":self.prior,"board_options":self.board,"variant":self.variant})
     }
     fn from_json(v: &Value) -> Option<Case> {
         Some(Case {
@@ -139,6 +173,7 @@ impl Case {
             freq: v["freq_hz"].as_u64()? as u32,
             prior: v["prior_reg"].as_u64().unwrap_or(0) as u8,
             board: v["board_options"].as_u64().unwrap_or(0) as u8,
+            variant: (v["variant"].as_u64().unwrap_or(0) as u8) % VARIANTS.len() as u8,
         })
     }
 }
@@ -151,7 +186,8 @@ fn rej<E: core::fmt::Debug>(e: E) -> Obs {
 /// `prime` sets the prior register content just before the modulation parameters are programmed.
 fn drive<RK: RadioKind>(radio: RK, c: &Case, prime: &dyn Fn(), observe: &dyn Fn() -> (Option<u8>, u32)) -> Obs {
     let (sf, bw, cr) = (SFS[c.sf], BWS[c.bw], CRS[c.cr]);
-    let implicit = c.sf == 1; // SF6 needs implicit header on SX127x; harmless elsewhere
+    let v = &VARIANTS[c.variant as usize % VARIANTS.len()];
+    let implicit = c.sf == 1 || v.implicit; // SF6 needs implicit header on SX127x; harmless elsewhere
     match PATHS[c.path] {
         "kind" => {
             let mut radio = radio;
@@ -167,7 +203,7 @@ fn drive<RK: RadioKind>(radio: RK, c: &Case, prime: &dyn Fn(), observe: &dyn Fn(
             Obs { rejected: None, decision: Some(mp.low_data_rate_optimize), programmed: p, programmed_count: n }
         }
         "lora-rx" | "lora-tx" => {
-            let mut lora = match block_on(LoRa::new(radio, false, Delay)) {
+            let mut lora = match block_on(LoRa::new(radio, v.public_network, Delay)) {
                 Ok(l) => l,
                 Err(e) => return rej(e),
             };
@@ -177,13 +213,19 @@ fn drive<RK: RadioKind>(radio: RK, c: &Case, prime: &dyn Fn(), observe: &dyn Fn(
             };
             prime();
             let r: Result<(), RadioError> = if PATHS[c.path] == "lora-rx" {
-                match lora.create_rx_packet_params(8, implicit, 32, true, true, &mp) {
-                    Ok(pp) => block_on(lora.prepare_for_rx(RxMode::Single(20), &mp, &pp)),
+                let mode = match v.rx_mode {
+                    0 => RxMode::Single(20),
+                    1 => RxMode::Continuous,
+                    2 => RxMode::Single(0),
+                    _ => RxMode::Single(65_535),
+                };
+                match lora.create_rx_packet_params(v.preamble, implicit, v.rx_len, v.crc, v.iq, &mp) {
+                    Ok(pp) => block_on(lora.prepare_for_rx(mode, &mp, &pp)),
                     Err(e) => Err(e),
                 }
             } else {
-                match lora.create_tx_packet_params(8, implicit, true, false, &mp) {
-                    Ok(mut pp) => block_on(lora.prepare_for_tx(&mp, &mut pp, 10, &[1, 2, 3, 4])),
+                match lora.create_tx_packet_params(v.preamble, implicit, v.crc, !v.iq, &mp) {
+                    Ok(mut pp) => block_on(lora.prepare_for_tx(&mp, &mut pp, v.power, &TX_PAYLOAD[..v.tx_len])),
                     Err(e) => Err(e),
                 }
             };
@@ -202,9 +244,13 @@ fn drive<RK: RadioKind>(radio: RK, c: &Case, prime: &dyn Fn(), observe: &dyn Fn(
             let rf = RfConfig { frequency: c.freq, bb: BaseBandModulationParams::new(sf, bw, cr), max_payload_len: 255 };
             prime();
             let r = if PATHS[c.path] == "lorawan-rx" {
-                block_on(lw.setup_rx(RxConfig { rf, mode: LwRxMode::Single { ms: 50 } }))
+                let mode = match v.lw_ms {
+                    Some(ms) => LwRxMode::Single { ms },
+                    None => LwRxMode::Continuous,
+                };
+                block_on(lw.setup_rx(RxConfig { rf, mode }))
             } else {
-                block_on(lw.tx(TxConfig { pw: 10, rf }, &[0x40, 1, 2, 3, 4, 0, 0, 0, 1, 9, 9, 9, 9])).map(|_| ())
+                block_on(lw.tx(TxConfig { pw: v.power as i8, rf }, &TX_PAYLOAD[..v.tx_len.max(13)])).map(|_| ())
             };
             if let Err(e) = r {
                 return rej(e);
@@ -279,7 +325,7 @@ fn observe_case(c: &Case) -> Obs {
                     (c.mod_params.map(|m| m[3]), c.mod_params_count)
                 }
             };
-            drive(rig::lr1110(&chip).0, c, &|| {}, &obs)
+            drive(rig::lr1110_board(&chip, c.board).0, c, &|| {}, &obs)
         }
     }
 }
@@ -409,7 +455,7 @@ fn self_check() -> Result<(), String> {
 pub fn run(ctx: &mut Ctx) {
     ctx.level = "exploration".into();
     ctx.exhaustive = true;
-    ctx.rule = "exhaustive: 8 SF x 10 BW x 8 implementations (BaseBandModulationParams::new; Sx126x as SX1261, SX1262, STM32WL-HP, STM32WL-LP; Sx127x as SX1276, SX1272; Lr1110) x 4 frequency classes (169, 433, 868, 915 MHz) x paths (RadioKind create+set_modulation_params with all 4 coding rates; LoRa::prepare_for_rx; LoRa::prepare_for_tx; LorawanRadio::setup_rx; LorawanRadio::tx; LR1110 and the calculator: RadioKind/new only) x prior content 0x00/0xFF of the SX127x register holding the bit x the 8 board-option combinations (rx_boost, tx_boost or DC-DC, TCXO) of the SX126x/SX127x drivers. One evaluation = one (implementation, path, SF, BW, CR, frequency, prior) tuple executed against the chip model, refused pairs included. Non-trivial (distinct by construction): the pair is accepted by the implementation and its nominal symbol time is within a factor 2 of the threshold (8.19 ms < 2^SF/BW < 32.76 ms: 12 pairs)".to_string() + hist_stage::RULE;
+    ctx.rule = "exhaustive: 8 SF x 10 BW x 8 implementations (BaseBandModulationParams::new; Sx126x as SX1261, SX1262, STM32WL-HP, STM32WL-LP; Sx127x as SX1276, SX1272; Lr1110) x 20 frequency classes (137, 169, 399.999999, 400.0, 433.175, 470.3, 525, 779.5, 868.1, 915, 923.2, 1020 MHz; the 2.4 GHz band of the LR1120/LR1121: 2399.999999, 2400, 2403, 2479, 2500 MHz; and 1 Hz, 1020.000001 MHz, u32::MAX Hz: every frequency a driver's create_modulation_params accepts is judged) x all 4 coding rates x paths (RadioKind create+set_modulation_params; LoRa::prepare_for_rx; LoRa::prepare_for_tx; LorawanRadio::setup_rx; LorawanRadio::tx; the calculator: new only; LR1110 in this stage: RadioKind only) x prior content 0x00/0xFF of the SX127x register holding the bit x the 8 board-option combinations (rx_boost, tx_boost or DC-DC, TCXO) of the SX126x/SX127x drivers and the 32 of the LR1110 (rx_boost, DC-DC, TCXO, high-power PA, RF-switch DIOs) x 4 variants of the remaining request parameters on the LoRa / adapter paths (preamble 8/0/65535/12, explicit/implicit header, CRC on/off, IQ inverted or not, payload lengths 0..255, RxMode Single(20)/Continuous/Single(0)/Single(65535), power 10/22/-9/0 dBm, adapter Single{50 ms}/Continuous/Single{0}/Single{1000}, public/private sync word), board options and variants at CR 4/5. One evaluation = one (implementation, path, SF, BW, CR, frequency, prior) tuple executed against the chip model, refused pairs included. Non-trivial (distinct by construction): the pair is accepted by the implementation and its nominal symbol time is within a factor 2 of the threshold (8.19 ms < 2^SF/BW < 32.76 ms: 12 pairs)".to_string() + hist_stage::RULE;
     ctx.assumptions = vec![
         "threshold 16.38 ms evaluated exactly with the nominal LoRa bandwidths (7.8125, 10.41(6), 15.625, 20.8(3), 31.25, 41.(6), 62.5, 125, 250, 500 kHz)".into(),
         "SF8 @ 15.6 kHz (nominal 16.384 ms, crate constant 15630 Hz gives 16.378 ms) is agreement-only: every implementation must decide like the airtime calculator".into(),
@@ -435,9 +481,6 @@ pub fn run(ctx: &mut Ctx) {
                 for sf in 0..8 {
                     for bw in 0..10 {
                         for cr in 0..4 {
-                            if path != 0 && cr != 0 {
-                                continue;
-                            }
                             for &freq in FREQS.iter() {
                                 if fam == "baseband" && freq != FREQS[0] {
                                     continue;
@@ -446,14 +489,25 @@ pub fn run(ctx: &mut Ctx) {
                                     if fam != "sx127x" && prior != 0 {
                                         continue;
                                     }
-                                  // board options (8 combinations) on the chip families that have them; CR 4/5 only
-                                  let boards: &[u8] = if (fam == "sx127x" || fam == "sx126x") && cr == 0 { &[0, 1, 2, 3, 4, 5, 6, 7] } else { &[0] };
-                                  for &board in boards {
+                                  // board options (8 combinations; LR1110: 32) on the chip families that have them, and the
+                                  // variants of the remaining request parameters through LoRa / the adapter; CR 4/5 only
+                                  const B8: [(u8, u8); 11] = [(0, 0), (1, 0), (2, 0), (3, 0), (4, 0), (5, 0), (6, 0), (7, 0), (0, 1), (0, 2), (0, 3)];
+                                  let lr_boards: Vec<(u8, u8)> = (0..32u8).map(|b| (b, 0)).collect();
+                                  let combos: &[(u8, u8)] = if cr != 0 || fam == "baseband" {
+                                      &[(0, 0)]
+                                  } else if fam == "lr1110" {
+                                      &lr_boards
+                                  } else if path == 0 {
+                                      &B8[..8]
+                                  } else {
+                                      &B8
+                                  };
+                                  for &(board, variant) in combos {
                                     idx += 1;
                                     if idx % n != ti {
                                         continue;
                                     }
-                                    let c = Case { imp, path, sf, bw, cr, freq, prior, board };
+                                    let c = Case { imp, path, sf, bw, cr, freq, prior, board, variant };
                                     st.eval();
                                     st.class(&format!("impl:{}", IMPLS[imp]));
                                     st.class(&format!("path:{}", PATHS[path]));
